@@ -131,6 +131,11 @@ func c19EncodeArena(ops []c19op) ([]byte, string) {
 	before := append([]byte{}, ar.mem...)
 	ri := 0
 	e := ofbase.NewEncoder()
+	// a second encoder is alive at the same time (a reply being assembled while a request is): created after the
+	// first, written before and after it; neither sees the other's bytes
+	other := ofbase.NewEncoder()
+	otherWant := bytes.Repeat([]byte{0x77}, 24)
+	other.Write(otherWant)
 	for _, o := range ops {
 		if o.kind == 5 {
 			r := ar.refs[ri]
@@ -141,6 +146,17 @@ func c19EncodeArena(ops []c19op) ([]byte, string) {
 		c19EncodeOp(e, o)
 	}
 	out := append([]byte{}, e.Bytes()...)
+	if !bytes.Equal(other.Bytes(), otherWant) {
+		return out, fmt.Sprintf("writing to one encoder changed another encoder's bytes: %x, was %x", other.Bytes(), otherWant)
+	}
+	filler := bytes.Repeat([]byte{0x99}, 300)
+	other.Write(filler)
+	if after := e.Bytes(); !bytes.Equal(after, out) {
+		return out, fmt.Sprintf("the encoding changed when another encoder was written to: %x, was %x", after, out)
+	}
+	if !bytes.Equal(other.Bytes(), append(append([]byte{}, otherWant...), filler...)) {
+		return out, fmt.Sprintf("the second encoder holds %x after writing 24 + 300 bytes to it", other.Bytes())
+	}
 	if !bytes.Equal(ar.mem, before) {
 		return out, fmt.Sprintf("the encoder wrote into the caller's memory: %x, was %x", ar.mem, before)
 	}
